@@ -36,7 +36,7 @@ ASSUMPTIONS = [
     "values of short/int/long are mathematical integers in the type's range (fcppt does no arithmetic on them except size()-1 behind !empty())",
     "floating-point values are compared and modelled as bit patterns",
 ]
-TRUSTED = ["harness/c20.cpp incl. its std-only oracle lines, and the line protocol (vh.hpp, Proto.lean)",
+TRUSTED = ["harness/c20.cpp + c20_scripts.cpp + c20_common.hpp incl. their std-only oracle lines, and the line protocol (vh.hpp, Proto.lean)",
            "g++ 12 + ASan/UBSan/_GLIBCXX_ASSERTIONS as witness for memory safety and for the preconditions of the std distributions"]
 
 LIMITS = {"s": (-(1 << 15), (1 << 15) - 1), "i": (-(1 << 31), (1 << 31) - 1), "l": (-(1 << 63), (1 << 63) - 1)}
@@ -961,16 +961,22 @@ MANIFEST = {
                    "standard distribution are arbitrary parameters: for every engine, distribution, parameter set, result-type shape "
                    "(plain / nested strong typedef / enum) and every history of draw / reset / param(p), the fcppt side produces exactly "
                    "the std side's values re-wrapped by decorate and leaves the wrapped distribution and the generator in the same state "
-                   "(history_transparent, variate_transparent); the interval reaches the wrapped distribution unchanged "
+                   "(history_transparent, variate_transparent), and the same for every program over any number of distribution objects, "
+                   "variates and two generators with copies, assignments, moves, swaps and variates built from used distributions "
+                   "(script_transparent: a copy continues its original's sequence, a variate owns its copy, assignment re-seats the "
+                   "generator); the interval reaches the wrapped distribution unchanged "
                    "(interval_passed_exactly); under the standard's contract a <= x <= b the draws lie in the requested interval, enum "
                    "draws are enumerators, container indices are valid and elements are members (in_range, enum_in_range, index_valid, "
-                   "container_elem_mem); the index/container factories return nothing exactly for an empty container (empty_gives_none). "
+                   "container_elem_mem, container_script_safe); the index/container factories return nothing exactly for an empty container (empty_gives_none). "
                    "The model is tied to the code by a differential correspondence that replays the real std pair's output into the model "
-                   "and is exhaustive over the intervals, enum sizes and container sizes named by the property."),
+                   "and is exhaustive over the intervals, enum sizes and container sizes named by the property, plus systematic programs "
+                   "(every copy/move/assign/swap form in states k0 in {0,1,2}, == on all ordered interval pairs, two generators) over the "
+                   "real standard distributions and over a stateful user-supplied distribution that exists in C++ and in Lean."),
     "level_note": ("Trusted: Lean kernel + propext/Classical.choice/Quot.sound; fidelity of the hand-written model outside the exercised "
                    "inputs; harness, its std-only oracle lines and the line protocol; the standard's distribution contracts are hypotheses; "
-                   "'reaches both ends' is observed (400 draws), not proved. Parameters::convert_to, basic::param() const and "
-                   "basic::operator()(Rng&, param_type const&) are ill-formed when instantiated on the pinned tree and are outside the tie. "
+                   "'reaches both ends' is observed (400 draws), not proved. Parameters::convert_to, basic::param() const, "
+                   "basic::operator()(Rng&, param_type const&) and operator>> are ill-formed when instantiated on the pinned tree and are outside "
+                   "the tie (compile probes on every run report it if one of them starts to exist). "
                    "No sorry/axiom/native_decide."),
     "technique": "Lean 4 proof over hand-written executable model (std pair as parameter) + differential correspondence with recorded std output (ASan/UBSan harness)",
     "design_ref": "DESIGN.md §5 C20",
